@@ -114,3 +114,32 @@ extern "C" void h_FindHeaderSection()
     __CPROVER_assert(r == 0 || r == 1, "C05 the search for the header section terminates with an answer for every input and stream state");
     if (in_len < 6) __CPROVER_assert(r == 0 && f->_error.severity() <= SEVERITY_INPUT_ERROR, "C05/C03 input too short to hold the HEADER keyword is refused with an input error, not looped over");
 }
+
+/* C03 (pass 1): an instance whose id is already taken, whose '=' is missing, whose keyword the schema does not know, or whose entity
+ * cannot be instantiated (abstract) yields no instance - and the rest of the instance is skipped, so that the next one is read;
+ * C14: a created instance gets the id of the file plus the offset of this read */
+extern "C" void h_CreateInstance()
+{
+    IN(int, in_id); IN(int, in_incr); IN(int, in_dup); IN(int, in_eq); IN(int, in_known); IN(int, in_objsev);
+    __CPROVER_assume(in_id >= 0 && in_id <= 1000000000 && in_incr >= 0 && in_incr <= 1000000000);
+    __CPROVER_assume(in_objsev == SEVERITY_NULL || in_objsev == SEVERITY_USERMSG || in_objsev == SEVERITY_INCOMPLETE || in_objsev == SEVERITY_WARNING || in_objsev == SEVERITY_INPUT_ERROR || in_objsev == SEVERITY_BUG);
+    STEPfile *f = mk_file(); f->_fileIdIncr = in_incr;
+    MgrNode *node = mk_node();
+    g_node = in_dup ? node : 0; g_int_value = in_id;
+    /* "#n" has been read by the caller up to the number: = KW ( ... ) ;  then the next instance's '#' */
+    const char *txt = in_eq ? "=KW(x);#" : "KW(x);#";
+    g_stream_arbitrary = 0; int n = 0; while (txt[n]) { g_stream_script[n] = txt[n]; n++; } g_stream_len = n;
+    istream in; in._m_state = 0; in._m_have = 0; in._m_consumed = 0;
+    ostream out;
+    SDAI_Application_instance *obj = (SDAI_Application_instance *)malloc(sizeof(SDAI_Application_instance));
+    ErrorDescriptor oe; oe.severity((Severity)in_objsev); g_obj_error = &oe;
+    g_created = in_known ? obj : ENTITY_NULL; g_create_calls = g_deleted_calls = g_skip_calls = 0;
+    SDAI_Application_instance *r = f->CreateInstance(in, out);
+    __CPROVER_assert(g_find_id == in_id + in_incr, "C14 the id is looked up shifted by the offset of this read");
+    int bad = in_dup || !in_eq || !in_known || in_objsev <= SEVERITY_WARNING;
+    if (bad) __CPROVER_assert(r == ENTITY_NULL, "C03 a duplicate instance id, a missing '=', an unknown entity keyword and an entity that cannot be instantiated each yield no instance (the caller counts an error)");
+    else __CPROVER_assert(r == obj && obj->STEPfile_id == in_id + in_incr, "C14 a created instance carries the file's id plus the offset");
+    __CPROVER_assert(g_skip_calls == 1, "C03 whatever happened, the rest of the instance is skipped exactly once, so that the next instance is still read");
+    __CPROVER_assert(in._m_consumed == (unsigned long)(n - 1), "C03 reading resumes at the '#' of the next instance");
+    if (in_known && !in_dup && in_eq && in_objsev <= SEVERITY_WARNING) __CPROVER_assert(g_deleted_calls == 1, "an instance that could not be created properly is destroyed");
+}
